@@ -6,6 +6,8 @@ import re._constants as sc
 
 import z3
 
+from . import limits
+
 
 def char(c):
     return z3.Re(z3.StringVal(chr(c)))
@@ -107,10 +109,9 @@ def line_pattern_lemmas(pattern_text, timeout_ms=60000):
     if has_end:
         lang = z3.Union(lang, body)
     s = z3.Solver()
-    s.set("timeout", timeout_ms)
     s.add(z3.Not(z3.InRe(t, lang)))
     t0 = time.time()
-    r = s.check()
+    r = limits.check(s, timeout_ms)
     out.append({"name": "GcodeParser.REGEX_GCODE_LINE/C18.pattern-matches-at-every-offset", "kind": "lemma",
                 "status": "discharged" if r == z3.unsat else ("refuted" if r == z3.sat else "unknown"), "backend": "z3-seq",
                 "secs": round(time.time() - t0, 3), "props": ["C18"],
@@ -118,17 +119,15 @@ def line_pattern_lemmas(pattern_text, timeout_ms=60000):
     # non-vacuity: without the catch-all alternative the same query must be satisfiable (checked on a copy of the
     # tree with the second alternative of group 2 removed is pattern specific; instead: the language is not trivially full)
     s2 = z3.Solver()
-    s2.set("timeout", timeout_ms)
     s2.add(z3.InRe(t, z3.Concat(body, z3.Union(*eol_alts))), z3.Length(t) > 3)
-    out.append({"name": "GcodeParser.REGEX_GCODE_LINE/C18.pattern-cover", "kind": "cover", "status": "discharged" if s2.check() == z3.sat else "unknown",
+    out.append({"name": "GcodeParser.REGEX_GCODE_LINE/C18.pattern-cover", "kind": "cover", "status": "discharged" if limits.check(s2, timeout_ms) == z3.sat else "unknown",
                 "backend": "z3-seq", "secs": 0.0, "props": ["C18"]})
     # progress: the empty string is matched only through the \Z alternative (every other EOL alternative is non-empty)
     e = z3.String("eol")
     s3 = z3.Solver()
-    s3.set("timeout", timeout_ms)
     s3.add(z3.InRe(e, z3.Union(*eol_alts)), z3.Length(e) == 0)
     t0 = time.time()
-    r3 = s3.check()
+    r3 = limits.check(s3, timeout_ms)
     out.append({"name": "GcodeParser.REGEX_GCODE_LINE/C18.progress-empty-match-only-at-end", "kind": "lemma",
                 "status": "discharged" if r3 == z3.unsat else ("refuted" if r3 == z3.sat else "unknown"), "backend": "z3-seq",
                 "secs": round(time.time() - t0, 3), "props": ["C18"]})
